@@ -55,7 +55,15 @@ Section Sound.
       apply Hcvt in Ec. subst. rewrite Ha. cbn [av_raw]. rewrite N.mod_small by (eapply Hua; eauto). reflexivity.
   Qed.
 
-  (* Attr.DW_FORM_flag_present stays flag_present (a flag of value 1 before DWARF 4) *)
+End Sound.
+
+Section Rules.
+  Variable ver : N.
+  Variable files : list N.
+  Variable cvt : N -> option address.
+  Variable uaddr : N -> res N.
+
+  (* DW_FORM_flag_present stays flag_present (a flag of value 1 before DWARF 4) *)
   Lemma conv_attr_flag_present name raw f :
     attr_normalise name raw = VFlag f ->
     conv_attr ver files cvt uaddr Attr.DW_FORM_flag_present name raw = Ok (Some AvFlagPresent).
@@ -99,7 +107,8 @@ Section Sound.
     intros Hn. unfold conv_attr. change (Attr.DW_FORM_implicit_const =? Attr.DW_FORM_implicit_const) with true. cbv iota.
     destruct raw; try reflexivity. exfalso. eapply Hn; reflexivity.
   Qed.
-End Sound.
+End Rules.
+
 
 (* DwoId is written as Udata, which the reader turns back into DwoId under DW_AT_GNU_dwo_id *)
 Lemma dwo_id_normal_form v : attr_normalise 8497 (VUdata v) = VDwoId v.
